@@ -72,6 +72,10 @@ def shouldTransform : Config → String → String → String → Bool
   | .any r :: _, _, _, _ => r
   | .edge p r :: rest, pk, fld, ck => if p.matches pk fld ck then r else shouldTransform rest pk fld ck
 
+/-- number of entries of a dict display (first attribute of the `Dict` node), by plain list recursion -/
+def dictNk (ats : List String) : Nat :=
+  ((ats.headD "0").toList).foldl (fun acc c => acc * 10 + (c.toNat - 48)) 0
+
 def compKindName : CompKind → String
   | .listComp => "ListComp" | .setComp => "SetComp" | .genExp => "GeneratorExp" | .dictComp => "DictComp"
 
@@ -295,7 +299,7 @@ def visitE (cfg : Config) : Expr → Nat → RE
   | .other i k ats ks, n =>
       if k == "Dict" then do                                 -- visit_Dict: strict; fields keys, values
         let (ks1, d1, n1) ← visitEs cfg ks n                 -- (all keys, then all values: kids are stored that way)
-        let nk := (ats.headD "0").toNat?.getD 0
+        let nk := dictNk ats
         let (keys2, h1, n2) := ensureList cfg "Dict" "keys" (ks1.take nk) n1
         let (vals2, h2, n3) := ensureList cfg "Dict" "values" (ks1.drop nk) n2
         pure (.other i k ats (keys2 ++ vals2), d1 ++ h1 ++ h2, n3)
